@@ -5,9 +5,40 @@
 
 static int smoke_cb(YR_SCAN_CONTEXT* ctx, int msg, void* data, void* ud) { return CALLBACK_CONTINUE; }
 
+#include <dirent.h>
+#include <unistd.h>
+static int open_fds(void)
+{
+  int n = 0;
+  DIR* d = opendir("/proc/self/fd");
+  if (d == NULL) return -1;
+  while (readdir(d) != NULL) n++;
+  closedir(d);
+  return n;
+}
+
+// the same bytes through the path entry point yr_rules_load: "filerc=<n> fds=<before>/<after>"; a loaded rule set is destroyed before counting
+static void do_loadfile(HMEM* in, FILE* out)
+{
+  char path[] = "/dev/shm/h_load_XXXXXX";
+  int fd = mkstemp(path);
+  if (fd < 0) { fprintf(out, "filerc=skip\n"); return; }
+  if (write(fd, in->data, in->len) != (ssize_t) in->len) { close(fd); unlink(path); fprintf(out, "filerc=skip\n"); return; }
+  close(fd);
+  int before = open_fds();
+  YR_RULES* rules = NULL;
+  int rc = yr_rules_load(path, &rules);
+  if (rc == ERROR_SUCCESS && rules != NULL) yr_rules_destroy(rules);
+  int after = open_fds();
+  unlink(path);
+  fprintf(out, "filerc=%d fds=%d/%d\n", rc, before, after);
+  fflush(out);
+}
+
 static void do_load(void* arg, FILE* out)
 {
   HMEM* in = (HMEM*) arg;
+  do_loadfile(in, out);
   YR_STREAM st;
   st.user_data = in;
   st.read = (YR_STREAM_READ_FUNC) hmem_read;
